@@ -159,7 +159,11 @@ class Twin:
     """The property's own description of a layer, over standalone components: nothing here touches
     inferno.neural.network.  Components are real (their own behaviour is the business of C03-C06)."""
 
-    def __init__(self, case):
+    def __init__(self, case, use_attr=False):
+        # use_attr=False: the DOCUMENTED reading (lateral input / stored feedback = the spikes the groups returned);
+        # use_attr=True: the reading of the known finding (they are the groups' .spike attribute, refrac == refrac_t),
+        # used only to decide whether a disagreement on a refrac_t == 0 layer really is an instance of that finding
+        self.use_attr = use_attr
         self.case = case
         self.B, self.dt = case["B"], case["dt"]
         self.cspec = [copy.deepcopy(s) for s in case["conns"]]
@@ -258,9 +262,9 @@ class Twin:
             yff = cff(*xs)
             yfb = cfb(*(ifb(prev) + fa))
             zff = nff((mk_tr(t[0]) or idt)(yff) + (mk_tr(t[2]) or idt)(yfb), **(nkw_of(op[4]) or {}))
-            ylat = clat(*(ilat(zff) + la))
+            ylat = clat(*(ilat(nff.spike if self.use_attr else zff) + la))
             zfb = nfb((mk_tr(t[1]) or idt)(ylat), **(nkw_of(op[5]) or {}))
-            self.prev_fb = zfb
+            self.prev_fb = nfb.spike if self.use_attr else zfb
             n = [s["name"] for s in self.cspec]
             return {"out": {self.nspec[0]["name"]: zff, self.nspec[1]["name"]: zfb},
                     "mid": {n[0]: yff, n[2]: yfb, n[1]: ylat}}
@@ -274,10 +278,13 @@ def teq(a, b):
 
 
 def sig(case, kind, **kw):
+    # refrac_t_zero is the marker of the known finding C17-recurrent-spike-attr-refrac0; it is set to True ONLY by
+    # classify() below, after the observed behaviour has been confirmed to be what the all-True attribute predicts
     s = {"kind": kind, "layer": case["kind"]}
-    if case["kind"] == "recurrent":
-        s["refrac_t_zero"] = refrac0(case)
+    kw.pop("refrac_t_zero", None)
     s.update(kw)
+    if case["kind"] == "recurrent":
+        s["refrac_t_zero"] = False
     return s
 
 
@@ -342,6 +349,11 @@ def check_state(case, layer, twin, i, fails, after):
         if hasattr(n, "threshold_adaptation") and not teq(ln.threshold_adaptation, n.threshold_adaptation):
             fails.append({"step": i, "what": f"adaptations of neuron group {s['name']} {after}",
                           "signature": sig(case, "adaptations")})
+    if case["kind"] == "recurrent" and after == "after forward":
+        fb = layer.feedback_spikes
+        if fb is None or twin.prev_fb is None or not teq(fb, twin.prev_fb):
+            fails.append({"step": i, "what": "stored feedback_spikes differ from the feedback group's output of this step",
+                          "signature": sig(case, "stored_feedback")})
     if case["kind"] == "recurrent" and after.startswith("after clear(feedback"):
         if layer.feedback_spikes is not None:
             fails.append({"step": i, "what": "feedback_spikes not None after clear",
@@ -372,6 +384,38 @@ def apply_learn(case, layer_or_twin, op, is_twin):
         raise AssertionError(k)
 
 
+def expected_constructor_error(case):
+    """the documented reasons for a layer constructor to raise, decided from the case alone"""
+    cn = [c["name"] for c in case["conns"]]
+    nn = [n["name"] for n in case["neurs"]]
+    if not cn or not nn or len(set(cn)) != len(cn) or len(set(nn)) != len(nn):
+        return True
+    kind = case["kind"]
+    if kind == "serial":
+        pairs = [(0, 0)]
+    elif kind == "biclique":
+        pairs = [(i, j) for i in range(len(cn)) for j in range(len(nn))]
+    else:
+        pairs = [(0, 0)] + ([(1, 1), (2, 0)] if case.get("trainable") else [])
+    return any(list(case["conns"][i]["out"]) != list(case["neurs"][j]["shape"]) for i, j in pairs)
+
+
+def classify(case, fails_doc, fails_attr):
+    """A disagreement with the documented reading is an instance of the known finding only if the layer has a
+    refrac_t == 0 group AND its behaviour is exactly what the all-True spike attribute predicts (no disagreement with
+    the attribute reading).  Everything else keeps its own signature."""
+    if fails_doc and fails_attr is not None and not fails_attr:
+        for f in fails_doc:
+            f["signature"] = {"kind": "spike_attr_refrac0", "layer": "recurrent", "refrac_t_zero": True,
+                              "was": f["signature"].get("kind")}
+        return fails_doc
+    out = list(fails_doc)
+    for f in (fails_attr or []):
+        f["what"] = "(also against the all-True spike-attribute reading) " + f["what"]
+        out.append(f)
+    return out
+
+
 def run_case(case):
     B, dt = case["B"], case["dt"]
     fails = []
@@ -383,46 +427,76 @@ def run_case(case):
         KEEP.append(layer)
     except Exception as e:  # noqa
         c = exc_code(e)
-        return {"trace": [[1, c] if c != 9 else [1, 9, f"{type(e).__name__}: {e}"[:200]]], "oracle": []}
+        if not expected_constructor_error(case):
+            fails.append({"step": -1, "what": f"constructor raised {type(e).__name__}: {e}"[:300],
+                          "signature": sig(case, "constructor_raised")})
+        return {"trace": [[1, c] if c != 9 else [1, 9, f"{type(e).__name__}: {e}"[:200]]], "oracle": fails}
     twin = Twin(case)
+    # second reference, only for recurrent layers with a refrac_t == 0 group: the attribute reading of the finding
+    twinA = Twin(case, use_attr=True) if (case["kind"] == "recurrent" and refrac0(case)) else None
+    refs = [twin] + ([twinA] if twinA else [])
     trace = [[0, [], snap_layer(case, layer)]]
     cn = [s["name"] for s in case["conns"]]
     nn = [s["name"] for s in case["neurs"]]
     kind = case["kind"]
+
+    def against(tw, fn):
+        fl = []
+        try:
+            fn(tw, fl)
+        except Exception as e:  # noqa
+            fl.append({"step": i, "what": f"reference raised {type(e).__name__}: {e}"[:300],
+                       "signature": sig(case, "reference_raised")})
+        return fl
+
     for i, op in enumerate(case["ops"]):
         k = op[0]
         try:
             if k == "fwd":
-                if kind == "serial":
-                    cap = op[3]
-                    r = layer(*[T(t) for t in op[1]], neuron_kwargs=nkw_of(op[2]), capture_intermediate=cap)
-                    z, y = (r if cap else (r, None))
-                    out = [enc_t(z), enc_t(y)] if cap else [enc_t(z)]
-                    g_out, g_mid = {nm(nn[0]): z}, ({nm(cn[0]): y} if cap else None)
-                elif kind == "biclique":
-                    cap = op[3]
-                    ins = {nm(name): tuple(T(t) for t in xs) for name, xs in op[1]}
-                    nkw = {nm(name): nkw_of(v) for name, v in op[2] if v is not None}
-                    r = layer(ins, neuron_kwargs=nkw, capture_intermediate=cap)
-                    zs, ys = (r if cap else (r, None))
-                    out = [enc_dict(zs, nn), enc_dict(ys, cn)] if cap else [enc_dict(zs, nn)]
-                    g_out, g_mid = zs, ys
-                else:
-                    cap = op[6]
-                    r = layer(*[T(t) for t in op[1]],
-                              lateral_connection_args=[T(t) for t in op[2]] or None,
-                              feedback_connection_args=[T(t) for t in op[3]] or None,
-                              feedfwd_neuron_kwargs=nkw_of(op[4]), feedback_neuron_kwargs=nkw_of(op[5]),
-                              capture_intermediate=cap)
-                    (z1, z2), ys = (r if cap else (r, None))
-                    out = [enc_t(z1), enc_t(z2)] + ([enc_dict(ys, cn)] if cap else [])
-                    g_out, g_mid = {nm(nn[0]): z1, nm(nn[1]): z2}, ys
                 try:
-                    check_fwd(case, layer, twin, op, g_out, g_mid, i, fails)
-                    check_state(case, layer, twin, i, fails, "after forward")
+                    if kind == "serial":
+                        cap = op[3]
+                        r = layer(*[T(t) for t in op[1]], neuron_kwargs=nkw_of(op[2]), capture_intermediate=cap)
+                        z, y = (r if cap else (r, None))
+                        out = [enc_t(z), enc_t(y)] if cap else [enc_t(z)]
+                        g_out, g_mid = {nm(nn[0]): z}, ({nm(cn[0]): y} if cap else None)
+                    elif kind == "biclique":
+                        cap = op[3]
+                        ins = {nm(name): tuple(T(t) for t in xs) for name, xs in op[1]}
+                        nkw = {nm(name): nkw_of(v) for name, v in op[2] if v is not None}
+                        r = layer(ins, neuron_kwargs=nkw, capture_intermediate=cap)
+                        zs, ys = (r if cap else (r, None))
+                        out = [enc_dict(zs, nn), enc_dict(ys, cn)] if cap else [enc_dict(zs, nn)]
+                        g_out, g_mid = zs, ys
+                    else:
+                        cap = op[6]
+                        r = layer(*[T(t) for t in op[1]],
+                                  lateral_connection_args=[T(t) for t in op[2]] or None,
+                                  feedback_connection_args=[T(t) for t in op[3]] or None,
+                                  feedfwd_neuron_kwargs=nkw_of(op[4]), feedback_neuron_kwargs=nkw_of(op[5]),
+                                  capture_intermediate=cap)
+                        (z1, z2), ys = (r if cap else (r, None))
+                        out = [enc_t(z1), enc_t(z2)] + ([enc_dict(ys, cn)] if cap else [])
+                        g_out, g_mid = {nm(nn[0]): z1, nm(nn[1]): z2}, ys
                 except Exception as e:  # noqa
-                    fails.append({"step": i, "what": f"reference raised {type(e).__name__}: {e}"[:300],
-                                  "signature": sig(case, "reference_raised")})
+                    # the layer raised: legitimate only if the documented composition of standalone components raises too
+                    # (judged against the reference that has tracked the layer so far)
+                    ref = twinA or twin
+                    try:
+                        ref.forward(op)
+                        fails.append({"step": i, "what": f"forward raised {type(e).__name__}: {e}"[:300] +
+                                      " although the documented composition of standalone components succeeds on this input",
+                                      "signature": sig(case, "forward_raised")})
+                    except Exception:  # noqa
+                        pass
+                    raise
+
+                def chk(tw, fl):
+                    check_fwd(case, layer, tw, op, g_out, g_mid, i, fl)
+                    check_state(case, layer, tw, i, fl, "after forward")
+                fd = against(twin, chk)
+                fa = against(twinA, chk) if twinA else None
+                fails += classify(case, fd, fa)
             elif k == "clear":
                 if kind == "recurrent":
                     cf, sub, keep = op[1], op[2], op[3]
@@ -438,16 +512,20 @@ def run_case(case):
                     fails.append({"step": i, "what": f"clear() raised {type(e).__name__}: {e}"[:300],
                                   "signature": sig(case, "clear_raised")})
                     raise
-                if sub:
-                    twin.fresh_like(keep_adapt=(keep is None or bool(keep)))
-                if cf:
-                    twin.prev_fb = None
-                check_state(case, layer, twin, i, fails,
-                            "after clear(feedback)" if cf else ("after clear" if sub else "after clear(submodules=False)"))
+                for tw in refs:
+                    if sub:
+                        tw.fresh_like(keep_adapt=(keep is None or bool(keep)))
+                    if cf:
+                        tw.prev_fb = None
+                after = "after clear(feedback)" if cf else ("after clear" if sub else "after clear(submodules=False)")
+                fd = against(twin, lambda tw, fl: check_state(case, layer, tw, i, fl, after))
+                fa = against(twinA, lambda tw, fl: check_state(case, layer, tw, i, fl, after)) if twinA else None
+                fails += classify(case, fd, fa)
                 out = []
             else:
                 apply_learn(case, layer, op, False)
-                apply_learn(case, twin, op, True)
+                for tw in refs:
+                    apply_learn(case, tw, op, True)
                 out = []
             trace.append([0, out, snap_layer(case, layer)])
         except Exception as e:  # noqa
